@@ -3,7 +3,7 @@ import os
 import traceback
 
 from . import repo
-from .blocks import from_asm_block, to_text, strip_markers
+from .blocks import from_asm_block, to_text, strip_markers, to_json_items
 
 
 class Ctx:
@@ -31,6 +31,15 @@ def parse_one(text):
     return blocks[0]
 
 
+def build_one(block, name="verif"):
+    """AsmBlock built the way parse_asm builds it from a compiler JSON (the tool's main input path)."""
+    from sfs_generator.parser_asm import build_blocks_from_asm_representation
+    blocks = build_blocks_from_asm_representation(name, name, to_json_items(block), False)
+    if len(blocks) != 1:
+        raise ValueError("expected one block, got %d for %r" % (len(blocks), to_text(block)))
+    return blocks[0]
+
+
 def run_block(ctx, block, want_specs=False):
     """The per-block pipeline + keep-or-revert decision exactly as optimize_asm_contract / optimize_isolated_asm_block
     perform it.  Returns dict: out (my block form, markers stripped), changed, eq, reason, log, raised (stage, text),
@@ -40,7 +49,7 @@ def run_block(ctx, block, want_specs=False):
     res = {"text": text, "raised": None, "eq": None, "reason": None, "log": None, "changed": False,
            "candidate_changed": False}
     with repo.quiet():
-        old_block = parse_one(text)
+        old_block = build_one(block)
         try:
             new_block, log, _csv = G.optimize_asm_block_asm_format(old_block, ctx.params)
         except repo.UnitTimeout:
@@ -82,7 +91,7 @@ def specs_for(ctx, block, name=None):
     """Specifications (SFS dicts keyed by sub-block) and sub_block_list for a block under this worker's options."""
     G = ctx.G
     with repo.quiet():
-        b = parse_one(to_text(block))
+        b = build_one(block)
         if name:
             b.set_block_name(name)
         d, subs = G.compute_original_sfs_with_simplifications(b, ctx.params)
